@@ -30,6 +30,7 @@ CONSTANTS
   MaxNonNone = %(nn)d
   MaxScopes = %(scopes)d
   Dmarcs = {%(dmarcs)s}
+  ExtraV = {%(extrav)s}
   Only1On = %(only1)s
   WithRemote = %(remote)s
   Kinds = {%(kinds)s}
@@ -52,10 +53,11 @@ def B(x):
 
 
 def cfg(n, maxr, nn, scopes, dmarcs=("off",), only1=False, devs=(), gen=False, lazy=True,
-        remote=True, maxdelay=2, tail=MC_TAIL, spec="Spec", kinds=("pipe",), modon=False):
+        remote=True, maxdelay=2, tail=MC_TAIL, spec="Spec", kinds=("pipe",), modon=False, extrav=("rq",)):
     return CFG % dict(spec=spec, n=n, maxr=maxr, nn=nn, scopes=scopes,
                       dmarcs=", ".join('"%s"' % d for d in dmarcs), only1=B(only1),
                       remote=B(remote), lazy=B(lazy), kinds=", ".join('"%s"' % x for x in kinds), modon=B(modon),
+                      extrav=", ".join('"%s"' % x for x in extrav),
                       devs=", ".join('"%s"' % d for d in devs), gen=B(gen), maxdelay=maxdelay,
                       tail=tail)
 
@@ -356,7 +358,8 @@ def repo_test_traces(ctx):
     verdicts, by_t = ctx.validate(
         "CheckRunnerHookTrace", None, events, keep=HOOK_KEEP, name="repotests-trace",
         cfg_text=cfg(n=4, maxr=3, nn=0, scopes=4, dmarcs=("off", "quar"), only1=True, devs=[],
-                     maxdelay=0, tail=TRACE_TAIL, spec="HSpec", kinds=("pipe", "rpipe"), modon=True))
+                     maxdelay=0, tail=TRACE_TAIL, spec="HSpec", kinds=("pipe", "rpipe"), modon=True,
+                     extrav=("rq", "rqp")))
     ok = drift = nviol = 0
     for t, recs in sorted(verdicts.items()):
         if t == st_t:
@@ -411,13 +414,14 @@ def run(ctx, replay):
     else:
         # ---- (B) behaviours out of TLC (jobs run next to the exhaustive runs) ----------
         sim = dict(n=4 if thorough else 3, maxr=3, nn=3 if thorough else 2, dmarcs=("off", "quar"), only1=True,
-                   devs=open_devs, lazy=False, remote=False, maxdelay=2, modon=True)
+                   devs=open_devs, lazy=False, remote=False, maxdelay=2, modon=True, extrav=("rq", "rqp"))
         n_sim = 2000 if thorough else 260
         gens = [
             # small scopes, every behaviour (all completion orders within the delay bound):
             # one check anywhere, a failing recipient modifier in the destination blocks
             pool.submit(gen_job, ctx, "gen-s1", dict(n=1, maxr=2, nn=1, scopes=2, only1=True, devs=open_devs,
-                                                     remote=False, maxdelay=1, modon=True)),
+                                                     remote=False, maxdelay=1, modon=True,
+                                                     extrav=("rq", "rqp"))),
             # no shared checks / any placement
             pool.submit(gen_job, ctx, "gen-sim1", dict(sim, scopes=1), simulate=n_sim, depth=300),
             pool.submit(gen_job, ctx, "gen-sim4", dict(sim, scopes=4), simulate=n_sim, depth=300),
@@ -502,7 +506,8 @@ def run(ctx, replay):
     verdicts, by_t = ctx.validate(
         "CheckRunnerTrace", None, events, keep=KEEP, batch=1200,
         cfg_text=cfg(n=4, maxr=3, nn=0, scopes=4, dmarcs=("off", "quar"), only1=True, devs=open_devs,
-                     maxdelay=0, tail=TRACE_TAIL, spec="TSpec", kinds=("pipe", "rpipe"), modon=True))
+                     maxdelay=0, tail=TRACE_TAIL, spec="TSpec", kinds=("pipe", "rpipe"), modon=True,
+                     extrav=("rq", "rqp")))
 
     ok = drift = extra = 0
     preds, known_n = {}, {}
@@ -577,8 +582,10 @@ def run(ctx, replay):
         "a refusal by the remote target is a 5.7.z policy error with nothing handed to the next hop",
         "after a per-recipient body that was refused for every recipient the driver aborts (it does not call Commit "
         "as the LMTP endpoint does; that history is C03's)",
-        "verdicts are per stage (rcpt-stage verdicts optionally for the first recipient only); headers and "
-        "Authentication-Results added by checks are not modelled",
+        "verdicts are per stage (rcpt-stage verdicts optionally for the first recipient only), from {none, ignore, "
+        "quarantine, reject} through the real FailAction.Apply plus the raw combined result Reject && Quarantine "
+        "(Reason with or without an SMTP code) that a check such as check.milter returns itself: reject wins; headers "
+        "and Authentication-Results added by checks (and their order relative to modifiers) are not modelled",
         "TLC 1.8.0, CommunityModules Json reader",
     ]
 
